@@ -143,6 +143,51 @@ def heavy_first(shards, cases):
     return first, rest
 
 
+LAYER_GRAPHS = None
+
+
+def layer_graphs():
+    """Graphs of the two-layer family: all multigraphs with <= 3 edges on 2..3 vertices, two disjoint triangles, a triangle
+    next to a square sharing no vertex, a path of 4."""
+    global LAYER_GRAPHS
+    if LAYER_GRAPHS is None:
+        from . import graphref
+
+        out = []
+        for n in (2, 3):
+            for es in graphref.multigraphs(n, 3, 2):
+                if es:
+                    out.append((n, list(es)))
+        out.append((6, [(0, 1), (1, 2), (2, 0), (3, 4), (4, 5), (5, 3)]))
+        out.append((7, [(0, 1), (1, 2), (2, 0), (3, 4), (4, 5), (5, 6), (6, 3)]))
+        out.append((4, [(0, 1), (1, 2), (2, 3)]))
+        LAYER_GRAPHS = out
+    return LAYER_GRAPHS
+
+
+def run_two_layers(part, key, case, post, nvars, oracle, menu):
+    """The same constraint posted TWICE on one Solver with one Graph object and two independent variable arrays: the
+    program must admit exactly the pairs (p1, p2) with oracle(p1) and oracle(p2) (state kept on the Graph, the Solver or
+    the module between the two calls shows here).  p1 ranges over all 2^nvars patterns, p2 over `menu` (all patterns when
+    nvars <= 3)."""
+    from cspuz import Solver
+
+    s = Solver()
+    g = make_graph(case["n"], case["edges"])
+    try:
+        v1 = post(s, g)
+        v2 = post(s, g)
+    except Exception as e:
+        part.violation(key + ":build-raises-" + type(e).__name__, case, {"exception": repr(e)[:300]})
+        return
+    seconds = list(patterns(nvars)) if nvars <= 3 else [tuple(bool(b) for b in p) for p in menu]
+    for p1 in patterns(nvars):
+        e1 = oracle(p1)
+        for p2 in seconds:
+            exp = e1 and oracle(p2)
+            judge(part, key, case, list(p1) + list(p2), exp, s, [fix(v, b) for v, b in zip(v1, p1)] + [fix(v, b) for v, b in zip(v2, p2)])
+
+
 class GraphConfig(object):
     """Context manager setting cspuz.config flags (module-level state) and restoring them."""
 
